@@ -97,7 +97,43 @@ def cases(shard, rnd):
                     others[a] = v
                     yield {'t': 'full', 'method': m, 'arg': a, 'v': v,
                            'vals': others}
+        # live dictionary: constants of the tree under test as names, as
+        # parts of names, as name lengths; other arguments from it too
+        from ..gen import magic
+        mp = magic.pool()
+        for m, a, kind in NAME_ARGS:
+            spec = refspec.BY_NAME[m]
+            for v in mp.strs:
+                yield {'t': 'name', 'method': m, 'arg': a, 'v': v,
+                       'phase': rnd.choice(['construct', 'mutate',
+                                            'mutate-decoded'])}
+                for v2 in (v + rnd.choice('aZ9-_.:@#,/ '), v + '!',
+                           v + '\n', 'q' + v, v.upper(), v * 2):
+                    if v2 != v:
+                        yield {'t': 'name', 'method': m, 'arg': a, 'v': v2,
+                               'phase': rnd.choice(['construct', 'mutate'])}
+                others = gf.assignment(rnd, spec, magic=0.6)
+                others[a] = v
+                yield {'t': 'full', 'method': m, 'arg': a, 'v': v,
+                       'vals': others}
+            for n in mp.lengths:
+                if n <= 400:
+                    yield {'t': 'name', 'method': m, 'arg': a,
+                           'v': rnd.choice('aZ9-_.:@#,/ ') * n,
+                           'phase': rnd.choice(['construct', 'mutate'])}
     elif w == 'fixed':
+        from ..gen import magic
+        mp = magic.pool()
+        for m, a, fixed in FIXED_ARGS:
+            if isinstance(fixed, bool):
+                extra = []
+            elif isinstance(fixed, int):
+                extra = mp.ints_in(0, 65535)
+            else:
+                extra = [x for x in mp.strs if len(x) <= 255]
+            for v in extra:
+                yield {'t': 'fixed', 'method': m, 'arg': a, 'v': v,
+                       'phase': rnd.choice(['construct', 'mutate'])}
         for m, a, fixed in FIXED_ARGS:
             if isinstance(fixed, bool):
                 vals = [False, True]
